@@ -610,6 +610,12 @@ class RangeDeque:
     def vc_snapshot(self):
         return RangeDeque(self.ctx, self.src, self.lo, self.hi, self.k)
 
+    def vc_len(self):
+        return self.k
+
+    def __bool__(self):
+        return bool(self.k > 0)
+
     def append(self, tab):
         self.ctx.check("C18/ParquetReader/pre@cache.append:the_table_continues_the_cached_rows", And(isinstance(tab, Tab), tab.lo == self.hi))
         self.hi = self.hi + tab.ln
